@@ -114,12 +114,18 @@ def gen():
     print(len(out), "mutants")
 
 def sh(cmd, cwd=None, env=None, timeout=1800):
+    import signal
     e = dict(os.environ); e["CARGO_NET_OFFLINE"] = "true"
     if env: e.update(env)
+    p = subprocess.Popen(cmd, shell=True, cwd=cwd, env=e, stdout=subprocess.PIPE, stderr=subprocess.STDOUT, text=True, start_new_session=True)
     try:
-        p = subprocess.run(cmd, shell=True, cwd=cwd, env=e, stdout=subprocess.PIPE, stderr=subprocess.STDOUT, text=True, timeout=timeout)
-        return p.returncode, p.stdout
+        out, _ = p.communicate(timeout=timeout)
+        return p.returncode, out
     except subprocess.TimeoutExpired:
+        # kill the whole process group: the check and its worker / twin processes must not linger
+        try: os.killpg(p.pid, signal.SIGKILL)
+        except Exception: pass
+        p.wait()
         return 124, "timeout"
 
 def setup_worker(k):
